@@ -203,6 +203,23 @@ def install(world):
         return V(TSeq(STR), ATTRVAL.get(OPT_ATTRVAL._dt.val(a.term), 'AList'))
     world.add_prim('as_list', p_as_list, VT.as_list)
 
+    def p_attr_ns(eng, args, st, node):
+        return V(OPT_STR, attr_ns(node_arg(eng, args[0], node), eng.coerce(args[1], STR, node).term))
+    world.add_prim('attr_ns', p_attr_ns, VT.attr_ns)
+
+    def p_attr_local(eng, args, st, node):
+        return V(OPT_STR, attr_local(node_arg(eng, args[0], node), eng.coerce(args[1], STR, node).term))
+    world.add_prim('attr_local', p_attr_local, VT.attr_local)
+
+    def p_pat_match(eng, args, st, node):
+        return V(BOOL, pat_match(eng.coerce(args[0], PAT, node).term, eng.coerce(args[1], STR, node).term))
+    world.add_prim('pat_match', p_pat_match, VT.pat_match)
+
+    def p_join_sp(eng, args, st, node):
+        f = world.ufunc('str.join.str', STR.sort(), TSeq(STR).sort(), STR.sort())
+        return V(STR, f(z3.StringVal(' '), eng.coerce(args[0], TSeq(STR), node).term))
+    world.add_prim('join_sp', p_join_sp, VT.join_sp)
+
     def p_same(eng, args, st, node):
         return V(BOOL, eng.eq(args[0], args[1], node))
     world.add_prim('same', p_same, VT.same)
@@ -306,6 +323,10 @@ def install(world):
         if isinstance(base, V) and base.t == SELLIST:
             if attr == '__len__':
                 return V(INT, z3.Length(SELLIST.get(base.term, 'selectors')))
+        if isinstance(base, V) and base.t == PAT and attr == 'match':
+            sv = eng.coerce(args[0], STR, node)
+            oi = TOpt(INT)
+            return V(oi, z3.If(pat_match(base.term, sv.term), oi.some(z3.IntVal(0)), oi.none()))
         if isinstance(base, V) and base.t == NODE:
             if attr == '__len__':
                 return V(INT, z3.Length(contents(base.term)))
